@@ -80,6 +80,14 @@ impl TextCollector {
     }
 }
 
+#[cfg(feature = "verif")]
+impl TextCollector {
+    /// Verification hook: the terminal this collector drives (read-only).
+    pub fn verif_vt(&self) -> &Vt {
+        &self.vt
+    }
+}
+
 #[cfg(test)]
 mod tests {
     use super::TextUnwrapper;
